@@ -73,8 +73,9 @@ class PartialDerivative(PointwiseTensorFieldOperator):
 
             ``'constant'``: Fill with ``pad_const``.
 
-            ``'symmetric'``: Reflect at the boundaries, not doubling the
-            outmost values.
+            ``'symmetric'``: Mirror the array about its edges, i.e. repeat the
+            outmost values (``'symmetric'`` in `numpy.pad`). For the
+            one-cell extension used here this coincides with ``'order0'``.
 
             ``'periodic'``: Fill in values from the other side, keeping
             the order.
@@ -226,8 +227,9 @@ class Gradient(PointwiseTensorFieldOperator):
 
             ``'constant'``: Fill with ``pad_const``.
 
-            ``'symmetric'``: Reflect at the boundaries, not doubling the
-            outmost values.
+            ``'symmetric'``: Mirror the array about its edges, i.e. repeat the
+            outmost values (``'symmetric'`` in `numpy.pad`). For the
+            one-cell extension used here this coincides with ``'order0'``.
 
             ``'periodic'``: Fill in values from the other side, keeping
             the order.
@@ -449,7 +451,9 @@ class Divergence(PointwiseTensorFieldOperator):
 
             ``'constant'``: Fill with ``pad_const``.
 
-            ``'symmetric'``: Reflect at the boundaries, not doubling the
+            ``'symmetric'``: Mirror the array about its edges, i.e. repeat the
+            outmost values (``'symmetric'`` in `numpy.pad`). For the
+            one-cell extension used here this coincides with ``'order0'``.
 
             ``'periodic'``: Fill in values from the other side, keeping
             the order.
@@ -649,8 +653,9 @@ class Laplacian(PointwiseTensorFieldOperator):
 
             ``'constant'``: Fill with ``pad_const``.
 
-            ``'symmetric'``: Reflect at the boundaries, not doubling the
-            outmost values.
+            ``'symmetric'``: Mirror the array about its edges, i.e. repeat the
+            outmost values (``'symmetric'`` in `numpy.pad`). For the
+            one-cell extension used here this coincides with ``'order0'``.
 
             ``'periodic'``: Fill in values from the other side, keeping
             the order.
@@ -832,8 +837,9 @@ def finite_diff(f, axis, dx=1.0, method='forward', out=None,
 
         ``'constant'``: Fill with ``pad_const``.
 
-        ``'symmetric'``: Reflect at the boundaries, not doubling the
-        outmost values.
+        ``'symmetric'``: Mirror the array about its edges, i.e. repeat the
+        outmost values (``'symmetric'`` in `numpy.pad`). For the
+        one-cell extension used here this coincides with ``'order0'``.
 
         ``'periodic'``: Fill in values from the other side, keeping
         the order.
